@@ -1,4 +1,4 @@
-import BeyondVerif.Lemmas.HeapSet
+import BeyondVerif.Lemmas.HeapOut
 /-!
 # C15 — state vectors have value semantics and change atomically
 
@@ -933,6 +933,57 @@ theorem pickle_then_mutations_invisible (h h1 : Heap) (a n : Nat) (hr : pickle h
     intro p hp
     obtain ⟨m, _, rfl⟩ := List.mem_map.mp hp
     exact hn) h1 sep).pres
+
+/-! ## histories, the mirror direction: any sequence of in-place operations on the ORIGINAL (or any object that is not the copy's) -/
+
+theorem mut_out {lo hi : Nat} {h1 h : Heap} (o : Out lo hi h1 h) {a : Nat} (ha : Off lo hi a) (m : Mut) : Out lo hi h1 (m.run h a) := by
+  cases m with
+  | setForm name => exact setForm_out o ha name
+  | setFrame name env => exact setFrame_out o ha name env
+  | setAttr name x => exact setAttr_out o ha name x
+  | setIdx i x => exact setIdx_out o ha i x
+  | covFrame name => exact covFrame_out o ha name
+  | readMan => exact readMan_out o ha
+  | addMan t => exact addMan_out o ha t
+  | metaAppend key x => exact metaAppend_out o ha key x
+  | metaSetItem key x => exact metaSetItem_out o ha key x
+  | nestedAppend x => exact nestedAppend_out o ha x
+  | arrSet => exact arrSet_out o ha
+
+theorem muts_out {lo hi : Nat} {h1 : Heap} (ms : List (Nat × Mut)) (hoff : ∀ p ∈ ms, Off lo hi p.1) :
+    ∀ h, Out lo hi h1 h → Out lo hi h1 (runMuts h ms) := by
+  induction ms with
+  | nil => intro h o; exact o
+  | cons p rest ih =>
+    intro h o
+    obtain ⟨n, m⟩ := p
+    exact ih (fun q hq => hoff q (List.mem_cons_of_mem _ hq)) _ (mut_out o (hoff (n, m) List.mem_cons_self) m)
+
+/-- right after `c = sv.copy()` no cell outside the ones the copy created refers to one of them -/
+theorem copy_region_out (h h1 : Heap) (a n : Nat) (wf : WfM h) (hr : copySV h a = (h1, .ok n)) :
+    Out h.length h1.length h1 h1 := by
+  have p : Pres h h1 := by have := copy_receiver_unchanged h a; rw [hr] at this; exact this
+  refine ⟨Nat.le_refl _, fun _ _ _ => rfl, fun x c hx hc y hy => ?_⟩
+  rcases hx with hx | hx
+  · rw [p.2 x hx] at hc
+    exact Or.inl (wf.closed x c hc y hy)
+  · have := (List.getElem?_eq_some_iff.mp hc).1
+    omega
+
+/-- clause "changing coordinates, metadata, maneuvers or covariance of one never shows in the other", over histories, the other way
+round: after `c = sv.copy()`, ANY sequence of in-place operations (each succeeding or raising) on the original — or on any object
+that existed before or is created later — leaves every cell the copy consists of (its buffer, `_data`, containers at any depth,
+maneuver list, covariance, the covariance's buffer and private state) bit-identical, and no cell outside them ever comes to refer
+to one of them. (The maneuver OBJECTS are old cells shared with the original: open finding, not covered.) -/
+theorem original_mutations_invisible (h h1 : Heap) (a n : Nat) (wf : WfM h) (hr : copySV h a = (h1, .ok n))
+    (ms : List (Nat × Mut)) (hoff : ∀ p ∈ ms, p.1 < h.length ∨ h1.length ≤ p.1) :
+    ∀ x, h.length ≤ x → x < h1.length → (runMuts h1 ms)[x]? = h1[x]? :=
+  (muts_out ms hoff h1 (copy_region_out h h1 a n wf hr)).same
+
+example : (copySV C15Ex.h0 6).2 = .ok 12 ∧
+    ((runMuts (copySV C15Ex.h0 6).1 [(6, .addMan 5), (6, .setFrame "Hill" noEnv), (6, .metaAppend "nested" 1), (6, .setForm "keplerian")]).drop 7).take 6
+      = (copySV C15Ex.h0 6).1.drop 7 := by
+  decide +kernel
 
 /-! ## constructors given an existing object, getters that create -/
 
